@@ -52,7 +52,16 @@ def run(ctx, rep):
                 okp = is_self_field(a0, "codec") and origin_mentions_call(a1, r"convert::Into::into$")
                 detail = "Codec::encode must be applied to self.codec and the packet argument"
                 # whole buffer: no slicing/splitting between encode and the write
-                bad = [c[1] for c in origin_calls(o) if any(x in c[1] for x in ("split", "slice", "truncate", "advance", "index", "Index"))]
+                def cuts(c):
+                    if not any(x in c[1] for x in ("split", "slice", "truncate", "advance", "index", "Index")):
+                        return False
+                    # `&buf[..]` is the whole buffer
+                    if "ndex" in c[1] and len(c[3]) > 1 and c[3][1][0] == "agg" and "RangeFull" in str(c[3][1][1]):
+                        return False
+                    if "ndex" in c[1] and len(c[3]) > 1 and c[3][1][0] == "const" and "RangeFull" in str(c[3][1]):
+                        return False
+                    return True
+                bad = [c[1] for c in origin_calls(o) if cuts(c)]
                 if bad:
                     okp = False
                     detail = "buffer is cut before being written (%s)" % bad
